@@ -176,7 +176,6 @@ func (gt *gossipTracer) Prune(p peer.ID, topic string)                    {}
 func (gt *gossipTracer) DuplicateMessage(msg *Message)                    {}
 func (gt *gossipTracer) RecvRPC(rpc *RPC)                                 {}
 func (gt *gossipTracer) SendRPC(rpc *RPC, p peer.ID)                      {}
-func (gt *gossipTracer) DropRPC(rpc *RPC, p peer.ID)                      {}
 func (gt *gossipTracer) UndeliverableMessage(msg *Message)                {}
 
 func (gt *gossipTracer) ThrottlePeer(p peer.ID) {
@@ -197,4 +196,33 @@ func (gt *gossipTracer) ThrottlePeer(p peer.ID) {
 	}
 
 	delete(gt.peerPromises, p)
+}
+
+// DropRPC voids the promises recorded for an IWANT that was dropped instead of sent:
+// the peer never saw the request, so it cannot break the promise.
+func (gt *gossipTracer) DropRPC(rpc *RPC, p peer.ID) {
+	iwants := rpc.GetControl().GetIwant()
+	if len(iwants) == 0 {
+		return
+	}
+
+	gt.Lock()
+	defer gt.Unlock()
+
+	for _, iwant := range iwants {
+		for _, mid := range iwant.GetMessageIDs() {
+			if promises, ok := gt.promises[mid]; ok {
+				delete(promises, p)
+				if len(promises) == 0 {
+					delete(gt.promises, mid)
+				}
+			}
+			if peerPromises, ok := gt.peerPromises[p]; ok {
+				delete(peerPromises, mid)
+				if len(peerPromises) == 0 {
+					delete(gt.peerPromises, p)
+				}
+			}
+		}
+	}
 }
